@@ -38,5 +38,5 @@ Fixpoint run_occ (s : state) (ops : list op) : list (list Z) :=
   end.
 
 Definition run_c12 (k : Z) (args : list (list Z)) : list (list Z) :=
-  if k =? 1201 then run_occ (init (negb (argz 0 args =? 0)) (negb (nth 1 (arg 0 args) 0 =? 0))) (dec_ops (arg 1 args))
+  if k =? 1201 then run_occ (init (negb (argz 0 args =? 0)) (negb (nth 1 (arg 0 args) 0 =? 0)) (negb (nth 2 (arg 0 args) 0 =? 0))) (dec_ops (arg 1 args))
   else [[-999]].
